@@ -3,7 +3,7 @@ import hashlib
 
 from hypothesis import strategies as st
 
-from .. import common, gen, ops, seq
+from .. import common, conc, gen, ops, seq
 from ..common import is_ok
 
 ID = "C02"
@@ -17,7 +17,10 @@ RULE = ("Hypothesis draws a history of 1-10 calls on ONE store directory (mostly
         "every value true, get_hex_digest true, no grammar spelling rejected. Non-trivial = the "
         "call is not the first on its instance, or names a non-default algorithm, or a "
         "non-canonical spelling; distinct key = (position class, canonical algorithms named, "
-        "spelling shapes, preceding op kinds).")
+        "spelling shapes, preceding op kinds). Family 'overlap': two calls that ask for digests (get_hex_digest x "
+        "get_hex_digest / store_object / retrieve+read) run as two threads on ONE instance under every "
+        "single-preemption schedule of the owned scheduler, with every read of a store file a yield point "
+        "before AND after the OS call; each answer must still be the true digest.")
 ASSUMPTIONS = ["store_object without a pid is not given algorithm arguments (the interface ignores them there)",
                "checksums supplied for validation are correct (C06 owns wrong ones)"]
 PIDS = ["p.a", "p.b"]
@@ -66,12 +69,123 @@ def enumerate_cases(tier):
     for case in c01.enumerate_cases(tier):
         if case.get("family") == "flaky-stream":
             yield case
+    yield from _overlap_cases(tier)
+    # short OS-level writes while the object is written (quota / file-size limit): success must still mean true digests
+    for algo in ("SHA-256", "SHA-384"):
+        for content in ({"hex": "73686f7274"}, {"pat": "ab", "n": 8192 + 1}, {"pat": "cd", "n": 3 * 8192}):
+            for kind in ("str", "bytesio", "file"):
+                for frac in (2, 3):
+                    yield {"family": "short-writes", "cfg": {"algo": algo, "depth": 2, "width": 2}, "contents": [content],
+                           "kind": kind, "frac": frac}
+
+
+OV_CONTENTS = [[{"hex": "00" * 7}, {"hex": "ff" * 7}, {"hex": "0a0a41"}],                       # same length
+               [{"pat": "ab", "n": 8192 + 3}, {"hex": "cd"}, {"pat": "0a", "n": 300}],            # multi-buffer vs tiny, many lines
+               [{"pat": "6f0a", "n": 70000}, {"pat": "70", "n": 65536}, {"hex": ""}]]            # around 64 KiB
+
+
+def _overlap_cases(tier):
+    algos = ["sha256", "MD5", "sha3_256", "SHA-512"] if tier == "quick" else list(common.ALL_DIGESTS)
+    cfgs = [{"algo": "SHA-256", "depth": 3, "width": 2}] + ([] if tier == "quick" else [{"algo": "MD5", "depth": 1, "width": 4}])
+    for cfg in cfgs:
+        for ci, cs in enumerate(OV_CONTENTS[:2 if tier == "quick" else 3]):
+            for ai, a in enumerate(algos):
+                b = algos[(ai + 1) % len(algos)]
+                others = [{"op": "hexd", "pid": "p.b", "algo": b}, {"op": "hexd", "pid": "p.b", "algo": a},
+                          {"op": "hexd", "pid": "p.a", "algo": b},
+                          {"op": "store", "pid": "p.c", "c": 2, "add": b}, {"op": "retrieve", "pid": "p.b"}]
+                for o in others:
+                    yield {"family": "overlap", "cfg": cfg,
+                           "contents": cs, "start": [{"op": "store", "pid": "p.a", "c": 0}, {"op": "store", "pid": "p.b", "c": 1}],
+                           "calls": [{"op": "hexd", "pid": "p.a", "algo": a}, o]}
+
+
+def case_cost(case):
+    return 30 if case.get("family") == "overlap" else 1
+
+
+def _short_writes_case(case, ctx):
+    import os
+    from .. import fsi
+    fsi.install()
+    run = seq.Run(dict(case, ops=[]), ctx)
+    data = run.contents[0]
+    ctx.evaluations -= 1
+    d = os.path.join(run.work, "sw")
+    store = common.make_store(d, run.cfg)
+    arg, _stream = run.data_arg(0, case["kind"], 0)
+    with fsi.active(d, lambda ev: None) as fctx:
+        fctx.write_hook = lambda n: max(1, n - n // case["frac"])
+        out = common.call(store.store_object, "p.a", arg, "sha3_256")
+    ctx.count()
+    if is_ok(out):
+        held = common.retrieve_bytes(store, "p.a")
+        for a, v in out[1].hex_digests.items():
+            if v != hashlib.new(a, data).hexdigest() or not is_ok(held) or v != hashlib.new(a, held[1]).hexdigest():
+                ctx.violation("short-write-digest", f"store_object({case['kind']}, {len(data)} bytes) under short OS writes succeeded "
+                              f"and reports hex_digests[{a}]={v[:16]}.., which is not the digest of the supplied content and of what "
+                              f"the store holds ({seq._short(held[1]) if is_ok(held) else held[1]})", {"what": "short writes"})
+            g = common.call(store.get_hex_digest, "p.a", a)
+            if is_ok(g) and g[1] != v:
+                ctx.violation("short-write-digest", f"after a store_object under short OS writes get_hex_digest(p.a, {a}) = {g[1][:16]}.. "
+                              f"but the store call reported {v[:16]}..", {"what": "short writes"})
+    ctx.nontrivial(["short-writes", case["kind"], len(data), case["frac"], case["cfg"]["algo"], "ok" if is_ok(out) else out[1]])
+    ctx.classify("short-write-stores")
+    run.close()
+
+
+def _overlap_case(case, ctx):
+    world = conc.World(case, ctx)
+    calls = case["calls"]
+    ctx.evaluations -= 1
+    bound = {"p.a": 0, "p.b": 1}
+
+    def exec_call(store, op):
+        if op["op"] == "store":
+            return common.call(store.store_object, op["pid"], world.cpaths[op["c"]], op["add"])
+        return conc.World.exec_call(world, store, op)
+    world.exec_call = exec_call
+    n = 0
+    for order, pre, ex in conc.single_preemption_schedules(world, calls, read_boundaries=True):
+        ctx.count()
+        n += 1
+        if ex.deadlock:
+            ctx.violation("overlap-deadlock", f"{calls} under order={order} preemptions={pre}: {ex.deadlock}")
+        for op, raw in zip(calls, ex.raw):
+            where = f"{calls} on one instance, schedule order={order} preemptions(after n steps)={pre}"
+            if not is_ok(raw):
+                ctx.violation("overlap-call-failed", f"{op} raised {raw[1]}: {str(raw[2])[:160]} when overlapped with the other call; {where}",
+                              {"err": raw[1], "op": op["op"]})
+            if op["op"] == "hexd":
+                true = hashlib.new(gen.canon(op["algo"]), world.contents[bound[op["pid"]]]).hexdigest()
+                if raw[1] != true:
+                    ctx.violation("overlap-hexdigest-value", f"get_hex_digest({op['pid']}, {op['algo']}) = {raw[1]} but the true digest "
+                                  f"of the pid's content is {true}; {where}", {"op": "hexd"})
+            elif op["op"] == "store":
+                data = world.contents[op["c"]]
+                for a, v in raw[1].hex_digests.items():
+                    if v != hashlib.new(a, data).hexdigest():
+                        ctx.violation("overlap-digest-value", f"store_object hex_digests[{a}] = {v} is not the digest of the stored "
+                                      f"content; {where}", {"op": "store"})
+            elif op["op"] == "retrieve" and raw[1] != world.contents[bound[op["pid"]]]:
+                ctx.violation("overlap-retrieve", f"retrieve_object({op['pid']}) read {seq._short(raw[1])} instead of the stored bytes; {where}")
+        if pre:
+            ctx.nontrivial(["overlap", [c["op"] for c in calls], [c.get("algo") for c in calls], [c.get("pid") for c in calls],
+                            len(world.contents[0]), order, pre])
+    ctx.classify("overlapping-asks-programs")
+    ctx.classify("overlapping-asks-schedules", n)
+    if n > 10 and calls[1]["op"] != "hexd":
+        ctx.sample({"family": "overlap", "calls": calls, "schedules": n})
 
 
 def run_case(case, ctx):
     if case.get("family") == "flaky-stream":
         from . import c01
         return c01._flaky_case(case, ctx)
+    if case.get("family") == "overlap":
+        return _overlap_case(case, ctx)
+    if case.get("family") == "short-writes":
+        return _short_writes_case(case, ctx)
     run = seq.Run(case, ctx)
     prev = []
     # every (pid, algorithm, instance) question asked during the history is asked again at the end
